@@ -95,7 +95,7 @@ func runCrashWorkload(c *CaseCtx, o crashOpts) {
 		}
 		x := r.Intn(100)
 		switch {
-		case ioFail && x >= 78 && x < 90:
+		case ioFail && x >= 78 && (x < 84 || x < 90 && !merging):
 			// the n-th record write of this commit fails (nothing written, or a torn prefix left behind): Commit must
 			// report it, and neither the images taken while it fails nor any later image may show one of its records
 			t := g.WriteTx(true)
@@ -152,11 +152,25 @@ func runCrashWorkload(c *CaseCtx, o crashOpts) {
 				step(t, false)
 			}
 			bursts++
-		case merging && x >= 90 && run.Files() >= 2:
+		case merging && (x >= 90 || ioFail && x >= 84) && run.Files() >= 2:
 			// Merge is not a step of the model: the state before and after it is the same
 			cr.SetStep(len(cr.States)-1, false, "merge")
 			c.Log("merge (%d files)", run.Files())
+			syncFault := ioFail && o.Power && r.Intn(3) != 0
+			if syncFault {
+				// one sync inside this Merge fails (the rewritten records are not durable then): whatever Merge does about
+				// it, no later power-loss image may have lost a committed record
+				inj := cr.Inj
+				inj.armed, inj.n, inj.count, inj.fired, inj.partial, inj.onlyWrites, inj.onlySyncs = true, 1+r.Intn(6), 0, nil, false, false, true
+			}
 			merr, p := mergeNoPanic(run)
+			if syncFault {
+				cr.Inj.armed, cr.Inj.onlySyncs, cr.Inj.onlyWrites = false, false, true
+				if cr.Inj.fired != nil {
+					c.Stat("merges_with_a_failed_sync", 1)
+					run.FaultSinceOpen = true
+				}
+			}
 			if p != "" {
 				c.Violate("panic:Merge:"+p, o.Class, "Merge panicked: "+p)
 				return
